@@ -9,7 +9,7 @@ DeleteSheet / SetSheetVisible / SetSheetName / MoveSheet, the template workbook)
 `Facts.MaxSheetNameLength`.  `ops` ranges over ALL finite histories of API calls,
 including rejected ones; `run init ops` is the state after the history on a `NewFile`.
 -/
-import XlModel.Lemmas.Sheets2
+import XlModel.Lemmas.Sheets5
 
 namespace XlModel.Props.C16
 open XlModel XlModel.Sheets
@@ -27,7 +27,8 @@ theorem facts_ok :
       Facts.C16.foldDeleteSheet && Facts.C16.foldSetSheetVisible && Facts.C16.foldGroupSheets &&
       Facts.C16.foldMoveSheet && Facts.C16.renameSourceExact && Facts.C16.renameClashCheck &&
       Facts.C16.deleteKeepsVisible && Facts.C16.hideCountsVisibleOthers &&
-      Facts.C16.moveRenumbersLocalSheetId && Facts.C16.deleteAdjustsDefinedNames) = true := by
+      Facts.C16.moveRenumbersLocalSheetId && Facts.C16.deleteAdjustsDefinedNames &&
+      Facts.C16.copyTargetByPartPath) = true := by
   decide
 
 /-! ## invariants over any history (clauses "names stay unique case-insensitively and valid",
@@ -64,6 +65,70 @@ theorem ids_unique (ops : List Op) :
 theorem scoped_names_in_range (ops : List Op) :
     ∀ d ∈ (run init ops).defs, ∀ l, d.loc = some l → l < (run init ops).sheets.length :=
   (invariant_any_history ops).defs_ok
+
+/-! ## clause "index arithmetic across sheet ids, relationship ids, part paths": the bookkeeping
+invariant over any history, and the explicit "model gap" / "panic" outcomes are unreachable -/
+
+/-- list invariant and bookkeeping invariant together, after any history -/
+theorem consistent_any_history (ops : List Op) : Inv (run init ops) ∧ PB (run init ops) :=
+  run_inv_pb init ops init_inv init_pb
+
+/-- `parts_bijective`, the direction sheets → parts: after any history every listed sheet has its
+workbook relationship (targeting the part named after its sheet id), its `sheetMap` entry (same
+part) and a decoded worksheet; sheet ids are non-zero, ids and rIds are pairwise distinct (so the
+maps are injective), and every `sheetMap` key is the name of a listed sheet.
+NOT proved (oracle `c16Invariants` + transcript only): that decoded worksheets, content-type
+overrides, worksheet relationships and package parts contain nothing *else* (no orphans). -/
+theorem parts_bijective_partial (ops : List Op) :
+    let s := run init ops
+    (∀ sh ∈ s.sheets, s.rels.find? (fun r => r.rid == sh.rid) = some ⟨sh.rid, sh.id⟩ ∧
+      getSheetXMLPath s sh.name = some sh.id ∧ (partGet? s.parts sh.id).isSome = true ∧ sh.id ≠ 0) ∧
+    (s.sheets.map (·.id)).Nodup ∧ (s.sheets.map (·.rid)).Nodup ∧
+    (∀ e ∈ s.sheetMap, ∃ sh ∈ s.sheets, sh.name = e.1) := by
+  intro s
+  obtain ⟨hi, hp⟩ := consistent_any_history ops
+  exact ⟨fun sh h => ⟨hp.rel_ok sh h, hp.map_ok sh h, hp.part_ok sh h, hp.id_pos sh h⟩,
+    hi.uniq_id, hp.rid_nodup, hp.map_keys⟩
+
+/-- after any history, whatever is called next never ends in the model's `gap` outcome (a state the
+transcription cannot follow: map-order dependence, missing decoded part) nor in `panic` (the nil
+dereference of UngroupSheets, the unguarded index of MoveSheet) -/
+theorem no_panic_history (ops : List Op) (op : Op) (e : Err)
+    (h : (step (run init ops) op).2 = some e) : e ≠ Err.gap ∧ e ≠ Err.panic := by
+  obtain ⟨hi, hp⟩ := consistent_any_history ops
+  have := step_not_bad _ op hi hp e h
+  exact ⟨fun h1 => this (Or.inl h1), fun h2 => this (Or.inr h2)⟩
+
+/-- after any history every listed sheet can be read: `workSheetReader` succeeds and returns the
+part named after the sheet id -/
+theorem listed_sheets_readable (ops : List Op) :
+    ∀ sh ∈ (run init ops).sheets, ∃ w, workSheetReader (run init ops) sh.name = .ok (sh.id, w) := by
+  obtain ⟨hi, hp⟩ := consistent_any_history ops
+  exact fun sh h => reader_listed _ hi hp sh h
+
+/-- clause "a copied sheet has the same cell content as its source and is independent of it
+afterwards" for the modelled content (A1): after any history a successful CopySheet makes the
+target's worksheet equal to the source's (tab deselected) and touches no other worksheet; source
+and target are different parts -/
+theorem copy_equal (ops : List Op) (f t : Int) (s' : St) (h : copySheet (run init ops) f t = .ok s') :
+    ∃ shf sht wf, (run init ops).sheets[f.toNat]? = some shf ∧ (run init ops).sheets[t.toNat]? = some sht ∧
+      shf.id ≠ sht.id ∧ partGet? (run init ops).parts shf.id = some wf ∧
+      partGet? s'.parts sht.id = some { wf with sel := false } ∧
+      ∀ q, q ≠ sht.id → partGet? s'.parts q = partGet? (run init ops).parts q := by
+  obtain ⟨hi, hp⟩ := consistent_any_history ops
+  exact copySheet_parts _ s' hi hp f t h
+
+/-- … "and is independent of it afterwards": after any history SetCellInt writes exactly the
+decoded worksheet of the sheet it names; every other worksheet (in particular a copy, or the
+source of a copy) keeps its content -/
+theorem then_independent (ops : List Op) (n : Name) (v : Nat) (s' : St)
+    (h : setCell (run init ops) n v = .ok s') :
+    ∃ sh w, sh ∈ (run init ops).sheets ∧ eqFold sh.name n = true ∧
+      partGet? (run init ops).parts sh.id = some w ∧
+      partGet? s'.parts sh.id = some { w with content := v } ∧
+      ∀ q, q ≠ sh.id → partGet? s'.parts q = partGet? (run init ops).parts q := by
+  obtain ⟨_, hp⟩ := consistent_any_history ops
+  exact setCell_parts _ s' hp n v h
 
 /-! ## the sheet list after each call is what the ordered-list model says -/
 
